@@ -275,6 +275,11 @@ def run_case(case, rec):
         return
     amap, order = abstract_map(rows)
     pdb_text, cif_text = emit.emit_pdb(rows), emit.emit_cif(rows)
+    tv = int(core.chash(desc)[4:6], 16) % 12
+    if tv in (1, 2, 3, 4):
+        # the same records with Windows line endings / stripped trailing blanks / no final newline / tabs
+        pdb_text, cif_text = emit.text_variant(pdb_text, tv, "pdb"), emit.text_variant(cif_text, tv, "cif")
+        rec.count("note:text-variant")
     readings = {}
     objs = {}
     det = lambda extra=None: {"case": desc, "info": extra}
